@@ -20,9 +20,11 @@ Anchors (all in `/repo/rten-gemm/src`):
   corrected on its own and accumulated into the output (`beta = 1` after the first block);
   `gemv` (M = 1, nothing prepacked) cuts K into chunks of 8 or 512 and applies the same correction
   per chunk.
-* `prepack.rs`: `prepack_a`/`prepack_b` call `pack_*_block(.., quant = None)`, so the packed panels
-  carry zero points 0; the SIMD kernels read zero points **only** from the panel metadata
-  (`_a_quant`, `_b_quant` are ignored), the generic kernel reads them from the arguments.
+* `prepack.rs`: `prepack_a`/`prepack_b` call `pack_*_block(.., quant = None)`, so prepacked panels
+  carry zero points 0 in their metadata.  Since the fix recorded in `findings/C17.json` the SIMD
+  kernels take the zero points of a tile from the `a_quant`/`b_quant` arguments whenever the caller
+  supplies them (`packing::int8::tile_{a,b}_zero_points`), like the generic kernel always did; the
+  metadata is only the fallback.  Row/column sums always come from the panel.
 -/
 namespace RtenVerif.QuantGemm
 
@@ -105,7 +107,7 @@ structure Request where
   sat : Bool
   /-- depth block size (`kc`, or the gemv chunk size) -/
   kc : Nat
-  /-- A / B prepacked -/
+  /-- A / B prepacked (`GemmInput*::Packed`); does not influence the result -/
   preA : Bool
   preB : Bool
   m : Nat
@@ -124,9 +126,16 @@ def colOf (n : Nat) : Nat → List Int → Nat → List Int
   | 0, _, _ => []
   | k + 1, b, j => (b.getD j 0) :: colOf n k (b.drop n) j
 
-/-- Zero point actually applied for a row/column: the SIMD kernels read it from the panel
+/-- Zero point applied for a row/column: the caller's value (0 when no quantisation parameters are
+passed), independent of the kernel and of prepacking. -/
+def effZero (z : Option (List Int)) (i : Nat) : Int :=
+  match z with
+  | none => 0
+  | some l => l.getD i 0
+
+/-- What the SIMD kernels used **before** the fix: zero points were read only from the panel
 metadata, which holds 0 for prepacked panels. -/
-def effZero (kern : Kern) (pre : Bool) (z : Option (List Int)) (i : Nat) : Int :=
+def effZeroOld (kern : Kern) (pre : Bool) (z : Option (List Int)) (i : Nat) : Int :=
   match z with
   | none => 0
   | some l => if kern = .simd ∧ pre then 0 else l.getD i 0
@@ -134,8 +143,8 @@ def effZero (kern : Kern) (pre : Bool) (z : Option (List Int)) (i : Nat) : Int :
 def entry (r : Request) (i j : Nat) : Int :=
   let a := rowOf r.k r.a i
   let b := colOf r.n r.k r.b j
-  let za := effZero r.kern r.preA r.za i
-  let zb := effZero r.kern r.preB r.zb j
+  let za := effZero r.za i
+  let zb := effZero r.zb j
   let v := match r.kern with
     | .generic => dotZ za zb a b
     | .simd => entrySimd r.sat r.kc za zb a b
